@@ -414,11 +414,11 @@ void runJob(const Job& job, const bool traceBuild, Report& rep, Progress& pg){
     }
     rep.nontrivial += 1;
     rep.counters["max_job_seconds"] = std::max<unsigned long>(rep.counters["max_job_seconds"], (unsigned long)std::chrono::duration<double>(std::chrono::steady_clock::now() - jobStart).count());
-    if(ex.stats.capped) rep.exhaustive = false;
     rep.spaces.push_back(std::string(ExecName) + (traceBuild ? " [trace build] " : " [fast build] ") + job.name + " W=" + std::to_string(job.nbWorkers) + ": "
         + (job.mode == 0 ? "full state space" : "deviation bound " + std::to_string(job.bound)) + ": states=" + std::to_string(ex.stats.states)
         + " transitions=" + std::to_string(ex.stats.transitions) + " complete executions=" + std::to_string(ex.stats.runs)
         + " distinct terminal digests=" + std::to_string(ex.stats.terminalDigests) + (ex.stats.capped ? " CAPPED" : "") + " [" + std::to_string((long)std::chrono::duration<double>(std::chrono::steady_clock::now() - jobStart).count()) + " s]");
+    if(ex.stats.capped) rep.cut();
     pg.publish(rep);
 }
 
@@ -459,7 +459,7 @@ int main(int argc, char** argv){
         const auto jobs = jobsFor(args.tier, traceBuild);
         for(size_t i = 0 ; i < jobs.size() ; ++i){
             if(i % args.nbSlices != args.slice) continue;
-            if(rep.timeUp()){ rep.exhaustive = false; break; }
+            if(rep.timeUp()){ rep.cutSpace(std::string(ExecName) + " " + jobs[i].name + ": not started before the deadline"); continue; }
             if(!pg.begin(caseOf(jobs[i], "start"))) continue;
             runJob(jobs[i], traceBuild, rep, pg);
         }
